@@ -77,6 +77,8 @@ class DilutionPlan:
         # process arguments
         if stock < xmax:
             raise ValueError(f"Stock concentration ({stock}) must be >= xmax ({xmax})")
+        if xmin > xmax:
+            raise ValueError(f"xmin ({xmin}) must be <= xmax ({xmax})")
         N = R * C
 
         vmax_arr = numpy.atleast_1d(vmax)
